@@ -174,6 +174,18 @@ class Fn:
             r = self.fresh()
             binds.append((r, "py_eun evalue %s" % a))
             return r, FLOAT
+        if isinstance(node, ast.Call) and isinstance(node.func, ast.Name) and node.func.id in ("rw__", "corr2__") and not node.keywords \
+                and len(node.args) == (1 if node.func.id == "rw__" else 2):
+            # np.array(reweight(weight, t_slice, **kwargs)) / np.array([correlate(o, partner.content[x0][0]) for o in t_slice]), renamed by the selectors
+            args = [self.expr(a, env, binds) for a in node.args]
+            if any(ty != OPTELT for _, ty in args):
+                raise TranslateError("%s: timeslice operation on %s" % (self.name, [ty for _, ty in args]))
+            names = []
+            for a, _ in args:
+                r = self.fresh()
+                binds.append((r, "py_eun (fun x_ => x_) %s" % a))
+                names.append(r)
+            return "(%s %s)" % ("erw" if node.func.id == "rw__" else "ecorr", " ".join(names)), ELT
         if isinstance(node, ast.Call) and isinstance(node.func, ast.Name) and node.func.id == "dvalue__" and len(node.args) == 1 and not node.keywords:
             a, ta = self.expr(node.args[0], env, binds)
             if ta != OPTELT:
@@ -1687,6 +1699,50 @@ def frag_meff_root_loop(fn):
     return [ast.fix_missing_locations(st) for st in stmts] + [ast.Return(value=ast.Name(id="newcontent", ctx=ast.Load()))]
 
 
+def frag_corr_reweight_loop(fn):
+    """Corr.reweight: `new_content = []`, the loop over the timeslices, and the content handed to the constructor."""
+    import copy
+    init = [i for i, st in enumerate(fn.body) if _d(st) == _d(ast.parse("new_content = []").body[0])]
+    if len(init) != 1 or not isinstance(fn.body[init[0] + 1], ast.For) or _d(fn.body[-1]) != _d(ast.parse("return Corr(new_content)").body[0]) or init[0] + 3 != len(fn.body):
+        raise TranslateError("Corr.reweight: `new_content = []; for ...; return Corr(new_content)` was not found at the end of the method")
+    want = _d(ast.parse("np.array(reweight(weight, t_slice, **kwargs))", mode="eval").body)
+
+    class R(ast.NodeTransformer):
+        def visit_Call(self, node):
+            if _d(node) == want:
+                return ast.parse("rw__(t_slice)", mode="eval").body
+            return self.generic_visit(node)
+    return [ast.fix_missing_locations(R().visit(copy.deepcopy(st))) for st in fn.body[init[0]:init[0] + 2]] + [ast.Return(value=ast.Name(id="new_content", ctx=ast.Load()))]
+
+
+def frag_corr_correlate_loop(fn):
+    """Corr.correlate with a Corr partner: the loop over enumerate(self.content), read as a loop over the timeslice numbers x0 with
+    t_slice = self.content[x0] (len(self.content) == self.T is the class invariant), specialised to the `isinstance(partner, Corr)` branch."""
+    import copy
+    init = [i for i, st in enumerate(fn.body) if _d(st) == _d(ast.parse("new_content = []").body[0])]
+    if len(init) != 1 or not isinstance(fn.body[init[0] + 1], ast.For) or _d(fn.body[-1]) != _d(ast.parse("return Corr(new_content)").body[0]) or init[0] + 3 != len(fn.body):
+        raise TranslateError("Corr.correlate: `new_content = []; for ...; return Corr(new_content)` was not found at the end of the method")
+    loop = fn.body[init[0] + 1]
+    if _d(loop.target) != _d(ast.parse("for x0, t_slice in enumerate(self.content): pass").body[0].target) or _d(loop.iter) != _d(ast.parse("enumerate(self.content)", mode="eval").body):
+        raise TranslateError("Corr.correlate: the loop is not `for x0, t_slice in enumerate(self.content)`")
+    if len(loop.body) != 1 or not isinstance(loop.body[0], ast.If) or len(loop.body[0].orelse) != 1 or not isinstance(loop.body[0].orelse[0], ast.If) \
+            or _d(loop.body[0].orelse[0].test) != _d(ast.parse("isinstance(partner, Corr)", mode="eval").body):
+        raise TranslateError("Corr.correlate: the loop body is not `if <undefined>: ... else: if isinstance(partner, Corr): ...`")
+    outer = copy.deepcopy(loop.body[0])
+    outer.orelse = outer.orelse[0].body        # the branch taken for a Corr partner
+    want = _d(ast.parse("np.array([correlate(o, partner.content[x0][0]) for o in t_slice])", mode="eval").body)
+
+    class R(ast.NodeTransformer):
+        def visit_Call(self, node):
+            if _d(node) == want:
+                return ast.parse("corr2__(t_slice, partner.content[x0])", mode="eval").body
+            return self.generic_visit(node)
+    outer = R().visit(outer)
+    new_loop = ast.For(target=ast.Name(id="x0", ctx=ast.Store()), iter=ast.parse("range(self.T)", mode="eval").body,
+                       body=[ast.parse("t_slice = self.content[x0]").body[0], outer], orelse=[])
+    return [ast.fix_missing_locations(st) for st in [copy.deepcopy(fn.body[init[0]]), new_loop, ast.Return(value=ast.Name(id="new_content", ctx=ast.Load()))]]
+
+
 class _RewritePlottable(ast.NodeTransformer):
     """y[0].value -> value__(y);  y[0].dvalue -> dvalue__(y)  (y a plain name)"""
     def visit_Attribute(self, node):
@@ -1809,6 +1865,13 @@ MEFF_SIGS = [
     dict(coq="m_eff_root_loop", py="Corr.m_eff", fragment=frag_meff_root_loop, params=[], ret=CONTENT, file="correlators.py", section="meffroot",
          extra_params=[("v_content", CONTENT), ("v_is_sinh", BOOL)], env={"is_sinh": BOOL}, aliases=_CORR_ALIASES, hints={"newcontent": CONTENT}),
 ]
+CORR05_SIGS = [
+    dict(coq="corr_reweight_loop", py="Corr.reweight", fragment=frag_corr_reweight_loop, params=[], ret=CONTENT, file="correlators.py", section="corr05",
+         extra_params=[("v_content", CONTENT)], aliases=_CORR_ALIASES, hints={"new_content": CONTENT}),
+    dict(coq="corr_correlate_loop", py="Corr.correlate", fragment=frag_corr_correlate_loop, params=[], ret=CONTENT, file="correlators.py", section="corr05",
+         extra_params=[("v_content", CONTENT), ("v_pcontent", CONTENT)],
+         aliases=dict(_CORR_ALIASES, **{"partner.content": ("v_pcontent", CONTENT)}), hints={"new_content": CONTENT}),
+]
 PLOT_SIGS = [
     dict(coq="corr_plottable_x", py="Corr.plottable", fragment=frag_plottable_x, params=[], ret=INTLIST, file="correlators.py", section="plot",
          extra_params=[("v_content", CONTENT)], aliases=_CORR_ALIASES),
@@ -1834,6 +1897,7 @@ SORT_SIGS = [
 SECTION_HEADERS = {
     "sortvec": ["Section SortVec.", "Variables V M : Type.", "Variable rowset : M -> Z -> V -> M.", "Variable absdet : M -> Q."],
     "meffroot": ["Section MeffRoot.", "Variable E : Type.", "Variable evalue : E -> Q.", "Variable eroot : E -> E -> Z -> E."],
+    "corr05": ["Section CorrPairing.", "Variable E : Type.", "Variable erw : E -> E.", "Variable ecorr : E -> E -> E."],
     "plot": ["Section Plottable.", "Variable E : Type.", "Variables evalue edvalue : E -> Q."],
     "proj": ["Section ProjOps.", "Variables E W : Type.", "Variable vnorm : W -> W.", "Variable sandwich : W -> E -> W -> E."],
     "corr": ["Section CorrOps.", "Variables E S : Type.", "Variables eadd esub emul ediv : E -> E -> E.", "Variable escale : Q -> E -> E.",
@@ -1847,7 +1911,7 @@ def translate_source(src, sigs=None, only=None, sources=None):
     trees = {"obs.py": tree}
     for fn_, tx_ in (sources or {}).items():
         trees[fn_] = ast.parse(tx_)
-    sigs = sigs or (SIGS + CORR_SIGS + SORT_SIGS + PROJ_SIGS + MEFF_SIGS + PLOT_SIGS)
+    sigs = sigs or (SIGS + CORR_SIGS + SORT_SIGS + PROJ_SIGS + MEFF_SIGS + PLOT_SIGS + CORR05_SIGS)
 
     out = ["(* GENERATED by translate/t_pycore.py from pyerrors/obs.py -- do not edit *)",
            "From Coq Require Import ZArith QArith Qabs List Bool.",
